@@ -63,6 +63,16 @@ func c18Build(key string, rs *c18Resp) []byte {
 		hdrs = append(hdrs, [2]string{"Sec-WebSocket-Accept", c18Accept(key)})
 	case "wrong":
 		hdrs = append(hdrs, [2]string{"Sec-WebSocket-Accept", c18Accept(key + "x")})
+	case "noncanonical-base64":
+		// 20 digest bytes encode to 27 symbols + '=': the low two bits of the 27th symbol are padding. Another symbol
+		// with the same high four bits decodes (leniently) to the same digest - and is a different, wrong header value.
+		const alphabet = "ABCDEFGHIJKLMNOPQRSTUVWXYZabcdefghijklmnopqrstuvwxyz0123456789+/"
+		v := []byte(c18Accept(key))
+		if len(v) == 28 {
+			ix := strings.IndexByte(alphabet, v[26])
+			v[26] = alphabet[(ix&^3)|((ix+1)&3)]
+		}
+		hdrs = append(hdrs, [2]string{"Sec-WebSocket-Accept", string(v)})
 	case "case-swapped", "lower", "upper":
 		// the right value with its letter case changed: base64 is case sensitive, so this is a wrong value
 		v := c18Accept(key)
@@ -279,6 +289,10 @@ func c18Script(r *vf.Rand) *c18Resp {
 	case 9:
 		rs.accept = []string{"case-swapped", "lower", "upper"}[r.Intn(3)]
 		desc = "accept-with-letter-case-changed"
+		if r.Chance(1, 3) {
+			rs.accept = "noncanonical-base64"
+			desc = "accept-with-padding-bits-changed"
+		}
 	}
 	rs.expectOK = strings.HasPrefix(rs.status, "HTTP/1.1 101") && strings.EqualFold(rs.upgrade, "websocket") && rs.accept == "ok"
 	if rs.expectOK {
@@ -558,6 +572,13 @@ func c18CheckRequest(c *vf.Case, res c18Result, port int, extraName, extraVal st
 	if hr.Header.Get(extraName) != extraVal {
 		bad("caller-supplied-header-missing")
 	}
+	for name := range hr.Header {
+		// every handshake of a case passes its own X-Client-<n> header: one that belongs to an earlier handshake (of this
+		// or any other stream of the process) has no business in this request
+		if strings.HasPrefix(strings.ToLower(name), "x-client-") && !strings.EqualFold(name, extraName) {
+			bad("header-of-an-earlier-handshake-sent-again")
+		}
+	}
 	c.Count("requests_validated", 1)
 }
 
@@ -565,7 +586,7 @@ func init() {
 	register(&vf.Check{
 		ID:        "C18",
 		Technique: "runtime monitor with the harness as a raw TCP server: request validation, acceptance predicate computed independently (own SHA-1/base64 path), scripted responses (status, header set/order/case/whitespace, wrong accept, truncation, segmentation) and piggy-backed wsref frames compared with what the client reads; bounded-progress probes for lost bytes",
-		Rule: "cases = 1-4 consecutive handshakes on one Stream (blocking and asynchronous), each against a scripted response: status {101, 101 with other text, 200, 400}, Upgrade {websocket in 3 spellings, other, absent}, Connection present/absent, Accept {correct, wrong, of another key, missing, correct with its letter case changed}, 0-3 extra headers, header order permuted, header-name case {canonical, lower, upper}, separator {': ', ':', ':   ', trailing blanks}, response+frames sent whole / cut at 1-2 random offsets / cut exactly at the blank line / cut inside the CRLF CRLF, server closing after k bytes, 0-3 frames piggy-backed and 0-2 sent later; after an accepted handshake optionally a small AsyncWrite that must complete, and one session in three is torn down with an asynchronous write still in flight; " +
+		Rule: "cases = 1-4 consecutive handshakes on one Stream (blocking and asynchronous), each against a scripted response: status {101, 101 with other text, 200, 400}, Upgrade {websocket in 3 spellings, other, absent}, Connection present/absent, Accept {correct, wrong, of another key, missing, correct with its letter case changed, correct with the base64 padding bits changed}, 0-3 extra headers, header order permuted, header-name case {canonical, lower, upper}, separator {': ', ':', ':   ', trailing blanks}, response+frames sent whole / cut at 1-2 random offsets / cut exactly at the blank line / cut inside the CRLF CRLF, server closing after k bytes, 0-3 frames piggy-backed and 0-2 sent later; after an accepted handshake optionally a small AsyncWrite that must complete, and one session in three is torn down with an asynchronous write still in flight; " +
 			"every case is non-trivial; distinct = sequence of (response class, segmentation, API)",
 		Assumptions: []string{
 			"acceptance = status 101 AND Upgrade: websocket (case-insensitive) AND Sec-WebSocket-Accept = base64(sha1(key+GUID)), exactly as the statement lists; the Connection response header is not part of it",
